@@ -108,6 +108,7 @@ package sbom
 
 //@ func Person.flatString
 //@   props C11
+//@   pure
 //@   assigns \nothing
 
 //@ func Person.ToSPDX2ClientString
@@ -122,6 +123,7 @@ package sbom
 
 //@ func ExternalReference.flatString
 //@   props C11
+//@   pure
 //@   assigns \nothing
 
 //@ func NodeList.Equal
@@ -287,6 +289,70 @@ package sbom
 //@   ensures [C14:diffSlice:added] forall x T :: (x in elems(added)) <==> ((x in elems(arr2)) && !(x in elems(arr1)))
 //@   ensures [C14:diffSlice:removed] forall x T :: (x in elems(removed)) <==> ((x in elems(arr1)) && !(x in elems(arr2)))
 //@   ensures [C14:diffSlice:count] count == (len(added) + len(removed) > 0 ? 1 : 0)
+//@   ensures [C14:diffSlice:countIff] count == (sameElems(arr1, arr2) ? 0 : 1)
 //@   ensures [C14:diffSlice:fresh] fresh(added) && fresh(removed)
 //@   invariant L0: forall x T :: (x in elems(added)) <==> ((x in elemsn(arr2, _i)) && !(x in elems(arr1)))
 //@   invariant L1: (forall x T :: (x in elems(added)) <==> ((x in elems(arr2)) && !(x in elems(arr1)))) && (forall y T :: (y in elems(removed)) <==> ((y in elemsn(arr1, _i)) && !(y in elems(arr2))))
+
+//@ func diffMap
+//@   props C14
+//@   assigns \nothing
+//@   ensures [C14:diffMap:added] forall k K :: (k in added) <==> ((k in map2) && !((k in map1) && map1[k] == map2[k]))
+//@   ensures [C14:diffMap:addedValues] forall k K :: (k in added) ==> added[k] == map2[k]
+//@   ensures [C14:diffMap:removed] forall k K :: (k in removed) <==> ((k in map1) && !(k in map2))
+//@   ensures [C14:diffMap:removedValues] forall k K :: (k in removed) ==> removed[k] == map1[k]
+//@   ensures [C14:diffMap:count] count == (len(added) + len(removed) > 0 ? 1 : 0)
+//@   ensures [C14:diffMap:countIff] count == (sameMap(map1, map2) ? 0 : 1)
+//@   ensures [C14:diffMap:fresh] fresh(added) && fresh(removed) && added != removed
+//@   invariant L0: added != nil && removed != nil && added != removed && added != map1 && added != map2 && fresh(added) && (forall k K :: (k in _V) ==> (k in map2)) && (forall k K :: (k in added) <==> ((k in _V) && !((k in map1) && map1[k] == map2[k]))) && (forall k K :: (k in added) ==> added[k] == map2[k])
+//@   invariant L1: added != nil && removed != nil && added != removed && removed != map1 && removed != map2 && fresh(removed) && fresh(added) && (forall k K :: (k in _V) ==> (k in map1)) && (forall k K :: (k in added) <==> ((k in map2) && !((k in map1) && map1[k] == map2[k]))) && (forall k K :: (k in added) ==> added[k] == map2[k]) && (forall k K :: (k in removed) <==> ((k in _V) && !(k in map2))) && (forall k K :: (k in removed) ==> removed[k] == map1[k])
+
+//@ func diffDates
+//@   props C14
+//@   assigns \nothing
+//@   ensures [C14:diffDates:count] count == ((((dt1 == nil) != (dt2 == nil)) || (dt1 != nil && dt2 != nil && time.Time.Unix(timestamppb.Timestamp.AsTime(dt1)) != time.Time.Unix(timestamppb.Timestamp.AsTime(dt2)))) ? 1 : 0)
+//@   ensures [C14:diffDates:added] added == (count == 1 && dt2 != nil ? dt2 : nil)
+//@   ensures [C14:diffDates:removed] removed == (count == 1 && dt2 == nil ? dt1 : nil)
+//@   ensures [C14:diffDates:countIff] count == (sameSecond(dt1, dt2) ? 0 : 1)
+
+// element identity of nested messages is their flattened string (pure methods)
+//@ imageset-of sbom.Person: flatString
+//@ imageset-of sbom.ExternalReference: flatString
+
+//@ func diffList
+//@   props C14
+//@   assigns \nothing
+//@   ensures [C14:diffList:added] forall x string :: (x in imageset(added, flatString)) <==> ((x in imageset(list2, flatString)) && !(x in imageset(list1, flatString)))
+//@   ensures [C14:diffList:removed] forall x string :: (x in imageset(removed, flatString)) <==> ((x in imageset(list1, flatString)) && !(x in imageset(list2, flatString)))
+//@   ensures [C14:diffList:count] count == (len(added) + len(removed) > 0 ? 1 : 0)
+//@   ensures [C14:diffList:countIff] count == (sameImages(list1, list2, flatString) ? 0 : 1)
+//@   ensures [C14:diffList:fresh] fresh(added) && fresh(removed)
+//@   invariant L0: forall x string :: (x in idx1) <==> (x in imagesetn(list1, flatString, _i))
+//@   invariant L1: (forall x string :: (x in idx1) <==> (x in imageset(list1, flatString))) && (forall y string :: (y in idx2) <==> (y in imagesetn(list2, flatString, _i)))
+//@   invariant L2: (forall x string :: (x in idx1) <==> (x in imageset(list1, flatString))) && (forall y string :: (y in idx2) <==> (y in imageset(list2, flatString))) && (forall z string :: (z in imageset(added, flatString)) <==> ((z in imagesetn(list2, flatString, _i)) && !(z in imageset(list1, flatString))))
+//@   invariant L3: (forall y string :: (y in idx2) <==> (y in imageset(list2, flatString))) && (forall z string :: (z in imageset(added, flatString)) <==> ((z in imageset(list2, flatString)) && !(z in imageset(list1, flatString)))) && (forall w string :: (w in imageset(removed, flatString)) <==> ((w in imagesetn(list1, flatString, _i)) && !(w in imageset(list2, flatString))))
+
+// two dates are equal "to the second"
+//@ pred sameSecond(d1 *timestamppb.Timestamp, d2 *timestamppb.Timestamp) = (d1 == nil && d2 == nil) || (d1 != nil && d2 != nil && time.Time.Unix(timestamppb.Timestamp.AsTime(d1)) == time.Time.Unix(timestamppb.Timestamp.AsTime(d2)))
+
+// Node.Diff: per field (generated from the Node struct of the working tree)
+//   differs / count:  the difference count is the number of differing attributes and the result is nil iff it is 0
+//   rebuild:          applying (Added, Removed) to the first node's attribute yields the second node's attribute
+//@ func Node.Diff
+//@   props C14
+//@   requires n2 != nil
+//@   assigns \nothing
+//@   ensures-agg Node: [C14:diff:nilIffEqual] (result == nil) <==> ($AND[string,enum]{n.$f == n2.$f} && $AND[slice]{sameElems(n.$f, n2.$f)} && $AND[ptrslice]{sameImages(n.$f, n2.$f, flatString)} && $AND[map]{sameMap(n.$f, n2.$f)} && $AND[ptr]{sameSecond(n.$f, n2.$f)})
+//@   ensures-agg Node: [C14:diff:count] result != nil ==> result.DiffCount == $SUM[string,enum]{n.$f == n2.$f ? 0 : 1} + $SUM[slice]{sameElems(n.$f, n2.$f) ? 0 : 1} + $SUM[ptrslice]{sameImages(n.$f, n2.$f, flatString) ? 0 : 1} + $SUM[map]{sameMap(n.$f, n2.$f) ? 0 : 1} + $SUM[ptr]{sameSecond(n.$f, n2.$f) ? 0 : 1}
+//@   ensures [C14:diff:shape] result != nil ==> result.Added != nil && result.Removed != nil
+//@   ensures-each Node[string]: [C14:rebuild:$f] result != nil ==> (result.Removed.$f != "" ? "" : (result.Added.$f != "" ? result.Added.$f : n.$f)) == n2.$f
+//@   ensures-each Node[enum]: [C14:rebuild:$f] result != nil ==> (result.Removed.$f != 0 ? 0 : (result.Added.$f != 0 ? result.Added.$f : n.$f)) == n2.$f
+//@   ensures-each Node[slice]: [C14:rebuild:$f] result != nil ==> rebuildsElems(n.$f, result.Added.$f, result.Removed.$f, n2.$f)
+//@   ensures-each Node[ptrslice]: [C14:rebuild:$f] result != nil ==> rebuildsImages(n.$f, result.Added.$f, result.Removed.$f, n2.$f, flatString)
+//@   ensures-each Node[map]: [C14:rebuild:$f] result != nil ==> rebuildsMap(n.$f, result.Added.$f, result.Removed.$f, n2.$f)
+//@   ensures-each Node[ptr]: [C14:rebuild:$f] result != nil ==> sameSecond(result.Removed.$f != nil ? nil : (result.Added.$f != nil ? result.Added.$f : n.$f), n2.$f)
+
+//@ func diff[string]
+//@   props C14
+//@   assigns \nothing
+//@   ensures [C14:diff:scalar] added == (v1 == v2 || v2 == "" ? "" : v2) && removed == (v1 != v2 && v2 == "" ? v1 : "") && count == (v1 == v2 ? 0 : 1)
